@@ -1014,6 +1014,7 @@ void reb_calculate_acceleration(struct reb_simulation* r){
 void reb_calculate_acceleration_var(struct reb_simulation* r){
     struct reb_particle* const particles = r->particles;
     const double G = r->G;
+    const double softening2 = r->softening*r->softening; // same softened distance as in reb_calculate_acceleration
     const unsigned int _gravity_ignore_terms = r->gravity_ignore_terms;
     const int _testparticle_type   = r->testparticle_type;
     const int N = r->N;
@@ -1054,7 +1055,7 @@ void reb_calculate_acceleration_var(struct reb_simulation* r){
                             const double dx = particles[i].x - particles[j].x;
                             const double dy = particles[i].y - particles[j].y;
                             const double dz = particles[i].z - particles[j].z;
-                            const double r2 = dx*dx + dy*dy + dz*dz;
+                            const double r2 = dx*dx + dy*dy + dz*dz + softening2;
                             const double _r  = sqrt(r2);
                             const double r3inv = 1./(r2*_r);
                             const double r5inv = 3.*r3inv/r2;
@@ -1094,7 +1095,7 @@ void reb_calculate_acceleration_var(struct reb_simulation* r){
                             const double dx = particles[i].x - particles[j].x;
                             const double dy = particles[i].y - particles[j].y;
                             const double dz = particles[i].z - particles[j].z;
-                            const double r2 = dx*dx + dy*dy + dz*dz;
+                            const double r2 = dx*dx + dy*dy + dz*dz + softening2;
                             const double _r  = sqrt(r2);
                             const double r3inv = 1./(r2*_r);
                             const double r5inv = 3.*r3inv/r2;
@@ -1142,7 +1143,7 @@ void reb_calculate_acceleration_var(struct reb_simulation* r){
                             const double dx = particles[i].x - particles[j].x;
                             const double dy = particles[i].y - particles[j].y;
                             const double dz = particles[i].z - particles[j].z;
-                            const double r2 = dx*dx + dy*dy + dz*dz;
+                            const double r2 = dx*dx + dy*dy + dz*dz + softening2;
                             const double _r  = sqrt(r2);
                             const double r3inv = 1./(r2*_r);
                             const double r5inv = 3.*r3inv/r2;
@@ -1194,7 +1195,7 @@ void reb_calculate_acceleration_var(struct reb_simulation* r){
                             const double dx = particles[i].x - particles[j].x;
                             const double dy = particles[i].y - particles[j].y;
                             const double dz = particles[i].z - particles[j].z;
-                            const double r2 = dx*dx + dy*dy + dz*dz;
+                            const double r2 = dx*dx + dy*dy + dz*dz + softening2;
                             const double r  = sqrt(r2);
                             const double r3inv = 1./(r2*r);
                             const double r5inv = r3inv/r2;
@@ -1288,7 +1289,7 @@ void reb_calculate_acceleration_var(struct reb_simulation* r){
                             const double dx = particles[i].x - particles[j].x;
                             const double dy = particles[i].y - particles[j].y;
                             const double dz = particles[i].z - particles[j].z;
-                            const double r2 = dx*dx + dy*dy + dz*dz;
+                            const double r2 = dx*dx + dy*dy + dz*dz + softening2;
                             const double r  = sqrt(r2);
                             const double r3inv = 1./(r2*r);
                             const double r5inv = r3inv/r2;
